@@ -661,6 +661,8 @@ def rsrv_matrix(rng):
         for hold in (0, RHOLD_MS):
             out.append(gen_rsrv(rng, timeout=t, hold=hold))
     out.append({"kind": "rsrv", "timeout_ms": RSMALL_MS, "cpu": 1000, "h": {"t": "ret", "resp": 7, "code": 0}, "hold_ms": RHOLD_MS})
+    for t, hold in ((50, 2050), (150, 2150), (1000, 3000)):     # Timeout is in MILLISECONDS: a handler overrunning by 2 s
+        out.append({"kind": "rsrv", "timeout_ms": t, "cpu": 0, "h": {"t": "ret", "resp": 7, "code": 0}, "hold_ms": hold})
     for t in (0, RSMALL_MS):        # panic(nil) through the assembled chain, without and with the timeout interceptor
         out.append({"kind": "rsrv", "timeout_ms": t, "cpu": 0, "h": {"t": "panic", "pv": "nil"}, "hold_ms": 0})
     return out
@@ -919,8 +921,9 @@ def encode(case, obs):
             rv, code = obs.get("resp"), obs.get("code", 4999)
             res = "(RResult %s %s)" % (copt(None if rv is None else cnat(rv if rv >= 0 else 4999)), cnat(code if code >= 0 else 4999))
         bad = obs.get("hung", False) or "error" in obs or "driver_panic" in obs or not obs.get("entered", False)
-        return "CaseS (mksc %s %s %s %s %s %s)" % (cZ(case["timeout_ms"]), cZ(case["hold_ms"]), c_hres(case["h"]), res,
-                                                  cbool(bad), cbool(obs.get("prompt", False)))
+        return "CaseS (mksc %s %s %s %s %s %s %s %s)" % (cZ(case["timeout_ms"]), cZ(case["hold_ms"]), c_hres(case["h"]), res,
+                                                        cbool(bad), cbool(obs.get("prompt", False)),
+                                                        cZ(obs.get("deadline_ms", -1)), cZ(obs.get("reply_ms", 0)))
     if kind in ("multi", "e2em"):
         ops = clist(["%s %s" % ({"start": "MOStart", "step": "MOStep", "fire": "MOFire"}[o["op"]], cnat(o["r"])) for o in case["mops"]])
         robs = obs.get("reqs")
